@@ -57,6 +57,7 @@ MEMBER_OPS = {
     "PlannerSolutionSet::": ["solutions", "solmix", "solrace"],
     "AllocatedSpaces::": ["spaces"],
     "DefaultOutputHandler::": ["logging", "logpark"],
+    "GoalLazySamples::": ["goallazy"],
     "CForest::": ["cfrace"],
     "CForestStateSampler::": ["cfrace"],
 }
@@ -296,6 +297,19 @@ def judge_surface(op_line, out_line):
                 return "%s messages sent, handlers received %s" % (d["sent"], d["received"])
             if d["getter_null"] != "0":
                 return "getOutputHandler() returned null %s times while a handler was always installed" % d["getter_null"]
+        elif op == "goallazy":
+            if d["count"] != d["expected"] or d["content_ok"] != "1":
+                return ("the goal holds %s states, the sampler's sequence and the callback determine %s (content equal: %s)"
+                        % (d["count"], d["expected"], d["content_ok"]))
+            if d["attempts"] != d["true_calls"]:
+                return "samplingAttemptsCount() = %s after %s sampler calls that returned true" % (d["attempts"], d["true_calls"])
+            for key, txt in (("stop_ok", "after stopSampling() returned the goal still changed / isSampling() was true"),
+                             ("restart_ok", "startSampling() after stopSampling() did not run the sampler to its end"),
+                             ("destroy_ok", "the sampler was called after ~GoalLazySamples() had returned")):
+                if d[key] != "1":
+                    return txt
+            if d["reader_bad"] != "0" or d["monotone_bad"] != "0":
+                return "readers saw %s foreign/inconsistent states and %s decreasing counts" % (d["reader_bad"], d["monotone_bad"])
         elif op == "logpark":
             if d["overlap"] != "0":
                 return ("OutputHandler::log() was entered by a second thread while another one was inside it (%s times in %s rounds): "
@@ -902,6 +916,7 @@ def surface_ops(rng, tier, tsan):
         ops += ["cfsamplers %d %d %d %d" % (rng.range(2, 3), 20000, rng.below(2), 1 if tsan else rng.below(2))]
         ops += ["logging %d %d" % (T(2, 8), 200)]
         ops += ["logpark 3"]
+        ops += ["goallazy %d %d %d" % (T(2, 6), 400, rng.below(1000))]
         ops += ["terminate %d 0" % T(2, 8), "terminate %d 1" % T(2, 6), "terminate %d 2" % T(2, 6)]
     else:
         reps = 2 if not big else 5
@@ -921,6 +936,7 @@ def surface_ops(rng, tier, tsan):
             ops += ["cfsamplers %d %d %d %d" % (rng.range(2, 4), 30000, rng.below(2), rng.below(2))]
             ops += ["logging %d %d" % (T(), 1500)]
             ops += ["logpark %d" % (3 if not big else 10)]
+            ops += ["goallazy %d %d %d" % (T(2, 12), 600 if not big else 2000, rng.below(1000))]
             ops += ["terminate %d 0" % T(), "terminate %d 1" % T(2, 8), "terminate %d 2" % T(2, 8)]
     return ops
 
